@@ -125,6 +125,11 @@ def run(tier, rep):
     nest, sizes = gen.alphabet("Nest"), gen.alphabet("NestSizes")
     pool += ["x " + "[" * n + "a" + "]" * n + "(u)" for n in sizes] + ["*" * n + "a" + "*" * n for n in sizes] \
         + ["![" * n + "a" + "](/u)" * n for n in sizes]
+    # paragraph sources that look like the start of a block construct, and link attempts that look ahead over
+    # unmatched delimiters before they fail (Alphabets.tla: ParaPrefixes, Lookahead)
+    pre, look = gen.alphabet("ParaPrefixes"), gen.alphabet("Lookahead")
+    l2one = [d for d in l2 if "\n" not in d and d.strip(" \t") == d and d]
+    pool += look + [p + t for p in pre for t in look + gen.sample(l2one, 150 if q else 3000, C.SEED + 11)]
     j1 = [(d, CFGS[k % len(CFGS)]) for k, d in enumerate(pool)]
     t1 = C.pmap(law_inline_mode, j1, chunk=300)
     # (a2) embedding
@@ -136,6 +141,7 @@ def run(tier, rep):
                    if "\n" not in u + m + c and not u.startswith((">", "- ", "1.", "#", "  "))} |
                   {"x " + "[" * n + "a" + "]" * n + "(u)" for n in sizes})
     one += deep
+    one += look
     one += ['x" "y', "a' 'b", '"a', 'a 6" pipe', "it's \"", "'", 'q"', "(c) \"x"]
     # Unicode look-alikes inside one-line texts (a line separator, form feed, NEL, ... are ordinary characters of
     # the text for Markdown: the text stays one line in every block context)
